@@ -257,6 +257,12 @@ def registry_part(ctx):
                     invariants=['NamesUnique', 'LookupAfterRegister', 'Emit'])
     res = run_tlc('GVRegistry', cfg=cfg, workers=4, timeout=1200)
     ctx.add_tlc(res, f'GVRegistry: all operation sequences of length {depth}')
+    from harness.tlc import run_tlapm
+    proved, tail = run_tlapm(['GVRegistry.tla', 'GVRegistryProofs.tla'], 'GVRegistryProofs.tla')
+    if proved is None:
+        ctx.drift('TLAPS could not discharge GVRegistryProofs (NamesUnique for every depth)')
+    else:
+        ctx.log(f'TLAPS: NamesUnique is an invariant of GVRegistry for every bound ({proved} obligations)')
     behs = [t[1] for t in res.find('REG')]
     n = mism = 0
     for beh in behs:
